@@ -151,6 +151,9 @@ class C05(object):
                         hsec.AddVariable(nm, 'a local variable whose name float() would accept', val)
                         hsec.AddVariable('EXP_' + nm, 'expected value: the bare local name', nm)
                     hsec.AddVariable('USES_NUMBERLIKE', 'refers to them by their local names', 'EXP_INF + 1.5*INF - NAN/Infinity + EXP_NAN')
+                    # ... and a local variable called t (a tax rate), used by its local name: the sector's t, not the time axis
+                    hsec.AddVariable('t', 'a local variable that happens to be called t', '0.25')
+                    hsec.AddVariable('USES_LOCAL_T', 'refers to the local t', 't*8.0 + tau')
                     rec.count('locals_named_like_math_symbols.declared')
             if case['eseed'] % 2 == 0 and len(sectors) >= 3:
                 # ONE Equation object (a behavioural rule written once) handed to several sectors: each sector's copy
